@@ -95,6 +95,10 @@ func akSchema(impl string) *jsonapi.Schema {
 	first := s.GetType("AK")
 	s.RemoveType("AK")
 	must(s.AddType(first))
+	// (... followed by its namesake, so that the name spelled in capitals still comes first of the two)
+	real := s.GetType("ak")
+	s.RemoveType("ak")
+	must(s.AddType(real))
 	akSchemas[impl] = s
 	return s
 }
